@@ -61,7 +61,9 @@ namespace options
 
             if (!is_value() && !is_double_dash())
             {
-                if (!std::regex_match(arg, std::regex("-{1,2}[^-=]+[^=]*=?.*")))
+                // only the name part has a syntax; a value after '=' may hold any bytes,
+                // including line breaks, which '.' would not match
+                if (!std::regex_match(name_, std::regex("-{1,2}[^-=]+[^=]*")))
                 {
                     raise<parsing_error>("The user input couldn't be parsed. (", arg, ")");
                 }
